@@ -412,7 +412,7 @@ def chunks(lst, n):
 # --------------------------------------------------------------------------
 # deciding one obligation
 # --------------------------------------------------------------------------
-def decide(claim, pc, dom, what, sig, payload, allv, qt):
+def decide(claim, pc, dom, what, sig, payload, allv, qt, weak_sat=False):
     """valid? -> proved / violation(with model values) / inconclusive.
     `claim` may be a list of claims: the conjunction is tried first and, when
     the solver gives up on it, each conjunct separately."""
@@ -425,11 +425,11 @@ def decide(claim, pc, dom, what, sig, payload, allv, qt):
         claim = z3.And(claims) if len(claims) != 1 else claims[0]
         if not claims:
             return proved(what)
-    v = smt.valid(claim, pc, dom, timeout_ms=qt if not claims or len(claims) == 1 else min(qt, 5000))
+    v = smt.valid(claim, pc, dom, timeout_ms=qt if not claims or len(claims) == 1 else min(qt, 5000), weak_sat=weak_sat)
     if v.status == "unknown" and claims and len(claims) > 1:
         worst = "unsat"
         for c in claims:
-            v = smt.valid(c, pc, dom, timeout_ms=qt)
+            v = smt.valid(c, pc, dom, timeout_ms=qt, weak_sat=weak_sat)
             if v.status == "sat":
                 break
             if v.status == "unknown":
@@ -442,7 +442,10 @@ def decide(claim, pc, dom, what, sig, payload, allv, qt):
         mv = smt.model_values(v.model, allv)
         pl = dict(payload)
         pl["values"] = {k: str(x) for k, x in mv.items()}
-        return violation(sig, what, pl)
+        r = violation(sig, what, pl)
+        if v.solver.endswith("weak"):
+            r["weak"] = True
+        return r
     return inconclusive("unknown: " + what)
 
 
